@@ -169,6 +169,9 @@ func genC16(rng *rand.Rand, n int, emit func(Case), dist map[string]int) {
 			rel := []string{"/file.txt", "/sub/f.txt", "/sub/deep/x.txt", "/index.html", "/assets/a.css", "/secret2.txt", "/secret.txt", "/secret3.txt", "/f.txt"}[rng.Intn(9)]
 			target = cf.prefix + rel
 		}
+		if strings.HasPrefix(cf.name, "File route") && rng.Intn(3) == 0 {
+			target = cf.prefix // the route itself: exactly its one file
+		}
 		var req *http.Request
 		func() {
 			defer func() {
@@ -201,6 +204,15 @@ func genC16(rng *rand.Rand, n int, emit func(Case), dist map[string]int) {
 		ok, why := true, ""
 		if panicked {
 			ok, why = false, "static serving panicked"
+		}
+		if strings.HasPrefix(cf.name, "File route") && target == cf.prefix {
+			wantMark := "MARK-ROOT-FILE"
+			if strings.Contains(cf.name, "Group.FileFS") {
+				wantMark = "MARK-SUB-F"
+			}
+			if rec.Code != 200 || body != wantMark {
+				ok, why = false, fmt.Sprintf("%s: GET %q should serve exactly its file (%q), got %d %q", cf.name, target, wantMark, rec.Code, body)
+			}
 		}
 		if strings.Contains(body, "SECRET-OUTSIDE") || strings.Contains(body, "secret") && rec.Code == 200 && strings.Contains(rec.Header().Get("Content-Type"), "html") && strings.Contains(body, "secret.txt") {
 			ok, why = false, fmt.Sprintf("%s: GET %q returned content or a listing of something outside the root: %q", cf.name, target, body)
